@@ -589,7 +589,7 @@ def run(ctx):
     sink = []
     run_corpus(ctx, sink)
     arithmetic(ctx, sink)
-    nh = ctx.n(300, 3000)
+    nh = ctx.n(500, 4000)
     for i in range(nh):
         run = random_history(ctx, i, sink)
         if i < 2:
@@ -612,6 +612,21 @@ def run(ctx):
 def replay(ctx, rec):
     case = rec.get("case") or {}
     hist = case.get("history")
+    if not hist and "n" in case and "mode" in case:
+        # HashTree construction record: rebuild that tree and re-evaluate the Merkle statement
+        import allmydata.hashtree as HT
+        inst = _Inst(case["mode"])
+        with inst:
+            leaves = [inst.leaf(i) for i in range(case["n"])]
+            for i, v in enumerate(leaves):
+                inst.reg[v] = "(Leaf %s)" % T.Z(i)
+            G = HT.HashTree(list(leaves))
+            P = (len(G) + 1) // 2
+            bad_pad = [i for i in range(case["n"], P) if G[P - 1 + i] != HT.empty_leaf_hash(i)]
+            bad_node = [p for p in range(P - 1) if G[p] != HT.pair_hash(G[2 * p + 1], G[2 * p + 2])]
+        if bad_pad or bad_node or list(G[P - 1:P - 1 + case["n"]]) != leaves:
+            ctx.oracle_fail("hashtree-construction-not-merkle", "HashTree(%d leaves) is not the Merkle tree over the padded leaves" % case["n"], case=case)
+        return {"padding_leaves_not_empty_leaf_hash_i": bad_pad, "nodes_not_pair_hash_of_children": bad_node}
     if not hist:
         return {"note": "record carries no history"}
     sink = []
